@@ -1,11 +1,99 @@
-import PocketModel.Upgrade
+import Proofs.Upgrade.Handler
 /-!
 # C37 — Feature upgrades activate at their heights and are never lost
 
-Model: `PocketModel/Upgrade.lean`.
+Model: `PocketModel/Upgrade.lean` (codec/codec.go feature-map functions, x/gov
+`handleUpgradeAfterUpdate` / `HandleUpgrade`, the restart block of `NewPocketCoreApp`).
+`lastVal xs k` is the height scheduled last for `k` in a list of feature strings; `namedKeys xs` the
+keys it names; `scheduled xs k` = `lastVal` with 0 for "not scheduled".
 -/
 namespace C37
 open Upgrade
+
+/-! ## Canonical feature list -/
+
+/-- `CleanUpgradeFeatureSlice`: the result is strictly sorted (hence no duplicate), has one entry per
+key, names exactly the keys of the input and keeps for each the height scheduled **last**. -/
+theorem clean_canonical (xs ys : List Bytes) (h : clean xs = some ys) :
+    ys.Pairwise (· < ·) ∧ (namedKeys ys).Nodup ∧ (∀ k, lastVal ys k = lastVal xs k) ∧
+    (∀ k, k ∈ namedKeys ys ↔ k ∈ namedKeys xs) := by
+  obtain ⟨h1, h2, h3, _⟩ := clean_lastVal h
+  exact ⟨clean_strictSorted h, h3, h1, h2⟩
+
+/-- The iteration order of the intermediate Go map (an oracle in the model) does not matter. -/
+theorem clean_order_independent (m1 m2 : FMap) (h : m1.Perm m2) :
+    sortStrings (mapToSlice m1) = sortStrings (mapToSlice m2) :=
+  sortStrings_congr (h.map renderEntry)
+
+/-- It fails (panics) exactly when some string has no `:`. -/
+theorem clean_fails_iff (xs : List Bytes) : clean xs = none ↔ ∃ s ∈ xs, splitKV s = none := by
+  have := clean_isSome_iff xs
+  constructor
+  · intro hn
+    apply Classical.byContradiction
+    intro hne
+    have hall : ∀ s ∈ xs, (parseEntry s).isSome := by
+      intro s hs
+      cases hsp : splitKV s with
+      | none => exact absurd ⟨s, hs, hsp⟩ hne
+      | some kv => simp [parseEntry, hsp]
+    have := this.mpr hall
+    rw [hn] at this
+    cases this
+  · rintro ⟨s, hs, hsp⟩
+    cases hc : clean xs with
+    | none => rfl
+    | some ys =>
+      have := this.mp (by rw [hc]; rfl) s hs
+      simp [parseEntry, hsp] at this
+
+theorem clean_idempotent (xs ys : List Bytes) (h : clean xs = some ys) : clean ys = some ys :=
+  Upgrade.clean_idempotent h
+
+/-- Reordering the input does not change the result when no key is scheduled twice. -/
+theorem clean_perm_invariant (xs xs' : List Bytes) (hp : xs.Perm xs') (hn : (namedKeys xs).Nodup) :
+    clean xs = clean xs' := by
+  have hn' : (namedKeys xs').Nodup := (namedKeys_perm hp).nodup_iff.mp hn
+  have hlv : ∀ k, lastVal xs k = lastVal xs' k := by
+    intro k
+    by_cases hk : k ∈ namedKeys xs
+    · obtain ⟨e, he, hek⟩ := List.mem_map.mp hk
+      obtain ⟨s, hs, hps⟩ := List.mem_filterMap.mp he
+      obtain ⟨k', v⟩ := e
+      simp only at hek
+      subst hek
+      rw [lastVal_of_nodup xs hn s k' v hs hps, lastVal_of_nodup xs' hn' s k' v (hp.subset hs) hps]
+    · rw [lastVal_none_of_not_named xs k hk,
+        lastVal_none_of_not_named xs' k (fun h => hk ((namedKeys_perm hp).symm.subset h))]
+  have hsome : (clean xs).isSome ↔ (clean xs').isSome := by
+    rw [clean_isSome_iff, clean_isSome_iff]
+    exact ⟨fun h s hs => h s (hp.symm.subset hs), fun h s hs => h s (hp.subset hs)⟩
+  cases hc : clean xs with
+  | none =>
+    cases hc' : clean xs' with
+    | none => rfl
+    | some ys' => rw [hc, hc'] at hsome; simp at hsome
+  | some ys =>
+    cases hc' : clean xs' with
+    | none => rw [hc, hc'] at hsome; simp at hsome
+    | some ys' => rw [clean_ext hlv hc hc']
+
+/-- … but not in general: with a key scheduled twice the *last* occurrence wins, so the order of the
+input matters (`["A:1","A:2"]` vs `["A:2","A:1"]`). -/
+theorem clean_perm_fails : ∃ xs xs' : List Bytes, xs.Perm xs' ∧ clean xs ≠ clean xs' := by
+  refine ⟨[[65, 58, 49], [65, 58, 50]], [[65, 58, 50], [65, 58, 49]], List.Perm.swap _ _ _, ?_⟩
+  intro he
+  have hs : (clean [[65, 58, 49], [65, 58, 50]]).isSome := (clean_isSome_iff _).mpr (by decide)
+  cases hc : clean [[65, 58, 49], [65, 58, 50]] with
+  | none => rw [hc] at hs; cases hs
+  | some ys =>
+    have h1 := (clean_lastVal hc).1 [65]
+    have h2 := (clean_lastVal (he ▸ hc)).1 [65]
+    rw [h1] at h2
+    revert h2
+    decide
+
+/-! ## Activation -/
 
 /-- A feature is active at `h` exactly when it is scheduled with a non-zero height `a ≤ h`
 (`IsAfterNamedFeatureActivationHeight`; a height of 0 means "never"). -/
@@ -13,5 +101,130 @@ theorem active_iff (g : Globals) (h : Int) (k : Bytes) :
     isAfterNamed g h k = true ↔ g.featureMap.get k ≠ 0 ∧ h ≥ g.featureMap.get k := by
   unfold isAfterNamed
   simp
+
+/-- After a successful upgrade message every feature it names is active exactly from the height it
+names (last mention wins; height 0 = never). -/
+theorem named_feature_active (stored : Upgrade.Upgrade) (g : Globals) (msg stored' : Upgrade.Upgrade) (g' : Globals)
+    (hstep : handleUpgradeAfterUpdate stored g msg = some (stored', g'))
+    (k : Bytes) (a : Int) (hk : lastVal msg.features k = some a) (h : Int) :
+    isAfterNamed g' h k = true ↔ a ≠ 0 ∧ h ≥ a := by
+  have : g'.featureMap.get k = a := by
+    rw [after_map hstep k, lastVal_append, hk]
+  rw [active_iff, this]
+
+/-- Previously scheduled features remain scheduled, with their heights unless the message
+re-schedules them; the stored list is canonical again. -/
+theorem features_monotone (stored : Upgrade.Upgrade) (g : Globals) (msg stored' : Upgrade.Upgrade) (g' : Globals)
+    (hstep : handleUpgradeAfterUpdate stored g msg = some (stored', g')) :
+    (∀ k, k ∈ namedKeys stored.features → k ∈ namedKeys stored'.features) ∧
+    (∀ k, lastVal msg.features k = none → lastVal stored'.features k = lastVal stored.features k) ∧
+    stored'.features.Pairwise (· < ·) ∧ (namedKeys stored'.features).Nodup := by
+  obtain ⟨hc, _⟩ := after_spec hstep
+  obtain ⟨h1, h2, h3, h4⟩ := clean_canonical _ _ hc
+  refine ⟨?_, ?_, h1, h2⟩
+  · intro k hk
+    rw [h4 k, namedKeys_append]
+    exact List.mem_append_left _ hk
+  · intro k hk
+    rw [h3 k, lastVal_append, hk]
+
+/-- The message is rejected (nothing changes) exactly when a stored or new feature string has no `:`. -/
+theorem upgrade_fails_iff (stored : Upgrade.Upgrade) (g : Globals) (msg : Upgrade.Upgrade) :
+    handleUpgradeAfterUpdate stored g msg = none ↔ ¬ ∀ s ∈ stored.features ++ msg.features, (parseEntry s).isSome := by
+  rw [← after_isSome_iff stored g msg]
+  cases handleUpgradeAfterUpdate stored g msg <;> simp
+
+/-! ## Restart -/
+
+/-- For every sequence of upgrade messages handled after the codec upgrade height, starting from a
+state in which the live globals agree with the stored parameter: a node restarted on the resulting
+state derives the same two heights and the same activation schedule as the running node —
+**provided the stored upgrade height is not 0**. -/
+theorem restart_same_schedule (stored : Upgrade.Upgrade) (g : Globals) (hc : Consistent stored g)
+    (msgs : List Upgrade.Upgrade) (hh : (runAfter (stored, g) msgs).1.height ≠ 0) :
+    ∃ r, restart (runAfter (stored, g) msgs).1 = some r ∧
+      r.upgradeHeight = (runAfter (stored, g) msgs).2.upgradeHeight ∧
+      r.oldUpgradeHeight = (runAfter (stored, g) msgs).2.oldUpgradeHeight ∧
+      ∀ k h, isAfterNamed r h k = isAfterNamed (runAfter (stored, g) msgs).2 h k := by
+  obtain ⟨r, h1, h2, h3, h4⟩ := restart_of_consistent (runAfter_consistent msgs (stored, g) hc) hh
+  refine ⟨r, h1, h2, h3, ?_⟩
+  intro k h
+  unfold isAfterNamed
+  rw [h4 k]
+
+/-- With `fixes/C37-restart-feature-map.patch` the schedule is the same without the side condition. -/
+theorem restart_same_schedule_fixed (stored : Upgrade.Upgrade) (g : Globals) (hc : Consistent stored g)
+    (msgs : List Upgrade.Upgrade) :
+    ∃ r, restartFixed (runAfter (stored, g) msgs).1 = some r ∧
+      ∀ k h, isAfterNamed r h k = isAfterNamed (runAfter (stored, g) msgs).2 h k := by
+  obtain ⟨r, h1, h4⟩ := restartFixed_of_consistent (runAfter_consistent msgs (stored, g) hc)
+  refine ⟨r, h1, ?_⟩
+  intro k h
+  unfold isAfterNamed
+  rw [h4 k]
+
+/-- `"MAXCH:7"`. -/
+def maxch7 : Bytes := [77, 65, 88, 67, 72, 58, 55]
+/-- `"MAXCH"`. -/
+def maxch : Bytes := [77, 65, 88, 67, 72]
+
+/-- **Defect** (the excluded point): on a chain whose stored upgrade height is 0, a feature-only
+upgrade activates the feature on running nodes, and a restarted node has lost it. -/
+theorem restart_loses_features_when_height_zero :
+    ∃ (stored' : Upgrade.Upgrade) (g' r : Globals),
+      handleUpgradeAfterUpdate {} { upgradeHeight := 0 } { height := 1, version := featureKey, features := [maxch7] }
+        = some (stored', g') ∧
+      isAfterNamed g' 7 maxch = true ∧ restart stored' = some r ∧ isAfterNamed r 7 maxch = false := by
+  have hsome := (after_isSome_iff {} { upgradeHeight := 0 }
+    { height := 1, version := featureKey, features := [maxch7] }).mpr (by decide)
+  cases hr : handleUpgradeAfterUpdate {} { upgradeHeight := 0 }
+      { height := 1, version := featureKey, features := [maxch7] } with
+  | none => rw [hr] at hsome; cases hsome
+  | some st =>
+    obtain ⟨stored', g'⟩ := st
+    have hact := (named_feature_active _ _ _ _ _ hr maxch 7 (by decide) 7).mpr (by decide)
+    obtain ⟨_, _, _, _, hbranch⟩ := after_spec hr
+    have hz : stored'.height = 0 := by
+      have : ¬ ((1 : Int) ≠ 1 ∧ featureKey ≠ featureKey) := by simp
+      simp only [this, if_false] at hbranch
+      exact hbranch.1
+    refine ⟨stored', g', {}, rfl, hact, ?_, by decide⟩
+    unfold restart
+    simp [hz]
+
+/-- The full statement (no side condition) is therefore false of the code as it is. -/
+theorem restart_same_schedule_fails :
+    ¬ ∀ (stored : Upgrade.Upgrade) (g : Globals), Consistent stored g → ∀ msgs : List Upgrade.Upgrade,
+      ∃ r, restart (runAfter (stored, g) msgs).1 = some r ∧
+        ∀ k h, isAfterNamed r h k = isAfterNamed (runAfter (stored, g) msgs).2 h k := by
+  intro hall
+  obtain ⟨stored', g', r, hstep, hact, hres, hlost⟩ := restart_loses_features_when_height_zero
+  obtain ⟨r', hr', heq⟩ := hall {} { upgradeHeight := 0 } consistent_genesis_default
+    [{ height := 1, version := featureKey, features := [maxch7] }]
+  have hrun : runAfter (({} : Upgrade.Upgrade), ({ upgradeHeight := 0 } : Globals))
+      [{ height := 1, version := featureKey, features := [maxch7] }] = (stored', g') := by
+    simp [runAfter, hstep]
+  rw [hrun] at hr' heq
+  rw [hres] at hr'
+  injection hr' with hr'
+  subst hr'
+  have := heq maxch 7
+  rw [hlost, hact] at this
+  cases this
+
+/-- The legacy branch of `HandleUpgrade` (block height below the codec upgrade height): the message
+is stored as sent — not merged with the stored features, not cleaned — and the live feature map is
+not touched, so the named features are not active on running nodes (but a restart loads them). -/
+theorem upgrade_before_codec_height_not_merged (stored : Upgrade.Upgrade) (g : Globals) (h : Int) (msg : Upgrade.Upgrade)
+    (hb : isAfterUpgradeHeight g h = false) :
+    handleUpgrade stored g h msg = some (msg, { g with upgradeHeight := msg.height }) := by
+  unfold handleUpgrade handleUpgradeBefore
+  simp [hb]
+
+/-! ## Non-vacuity -/
+
+example : Consistent {} { upgradeHeight := 0 } := consistent_genesis_default
+example : lastVal [maxch7] maxch = some 7 := by decide
+example : isAfterUpgradeHeight {} 100 = false ∧ isAfterUpgradeHeight {} 30024 = true := by decide
 
 end C37
